@@ -75,6 +75,7 @@ def one_sequence(args):
         d1 = noderig.diff_dumps(dump_l, dump_f)
         if d1:
             viols.append(("leader-vs-follower", d1))
+        seq_f = sf.call("history_seq_probe").get("start")
         # R: restart the follower's directory: pure start-up replay
         sf.call("sleep", ms=120)
         sf.kill()
@@ -87,6 +88,13 @@ def one_sequence(args):
             d3 = noderig.diff_dumps(dump_l, dump_r)
             if d3:
                 viols.append(("leader-vs-replay", d3))
+        # the history-id sequence a node would continue with if it became leader now (probe consumes an id: after the dumps)
+        seq_l = sl.call("history_seq_probe").get("start")
+        seq_r = sf.call("history_seq_probe").get("start")
+        if seq_f is not None and seq_l is not None and seq_f != seq_l:
+            viols.append(("leader-vs-follower", [("/config_history_sequence/next_id", seq_l, seq_f)]))
+        if seq_f is not None and seq_r is not None and seq_r < seq_f:
+            viols.append(("follower-vs-replay", [("/config_history_sequence/next_id", seq_f, seq_r)]))
         out = []
         for pair, diffs in viols:
             meta = [x for x in diffs if x[0].startswith("/naming/") and "/metadata" in x[0]]
